@@ -25,6 +25,12 @@ Theorem C03_roots_unlimited :
 Proof. exact find_roots_unlimited. Qed.
 Print Assumptions C03_roots_unlimited.
 
+(* "no filter" is the empty stack: the followed relation is the source's own *)
+Theorem C03_no_filter :
+  forall (s : source) (x : nat), find_preds s [] x = s_preds s x.
+Proof. exact find_preds_nil. Qed.
+Print Assumptions C03_no_filter.
+
 (* Depth = d > 0: every root is an ancestor at most d followed steps away (a top,
    or exactly d steps away), and the given node lies under some root. *)
 Theorem C03_depth_bounds :
@@ -148,44 +154,18 @@ Theorem C03_tagged :
 Proof. exact extended_copy_tags. Qed.
 Print Assumptions C03_tagged.
 
-(* ---- the hypotheses are satisfiable; concrete runs of the model ---- *)
+(* ---- the hypotheses are satisfiable; concrete runs of the model ----
+   (sources ex_source, ex_remote, diamond_source: Proofs/FindRoots.v) *)
 
 Example C03_ex_acyclic : acyclic_source ex_source (fun x => x).
-Proof.
-  intros x p H. destruct x as [|[|[|[|x]]]]; simpl in H;
-    repeat (destruct H as [<- | H]; [simpl; lia|]); contradiction.
-Qed.
+Proof. exact ex_acyclic. Qed.
 
 Example C03_ex_consistent : forall x, Forall (served_ok ex_source) (s_preds ex_source x).
-Proof.
-  intros x. destruct x as [|[|[|[|x]]]]; simpl.
-  - repeat constructor. discriminate.
-  - repeat constructor; discriminate.
-  - constructor.
-  - constructor; [|constructor]. split; [|discriminate].
-    split; [right; reflexivity | intro k; reflexivity].
-  - constructor.
-Qed.
+Proof. exact ex_served_ok. Qed.
 
 (* a ReferrerLister source (remote repository) serving complete referrer descriptors *)
-Definition ex_remote : source :=
-  mkSource (fun x => match x with
-                     | 1 => [mkDesc 2 (b "sbom") (Some [(b "k", b "w")]); mkDesc 4 (b "sig") None]
-                     | _ => [] end)
-           (fun x => match x with 2 => KArtifact | _ => KImage end)
-           (fun x => match x with 2 => b "sbom" | _ => [] end)
-           (fun x => match x with 4 => b "sig" | _ => [] end)
-           (fun x => match x with 2 => Some [(b "k", b "w")] | _ => None end) true.
-
 Example C03_ex_remote_ok : forall x, Forall (served_ok ex_remote) (s_preds ex_remote x).
-Proof.
-  intros x. destruct x as [|[|x]]; simpl; try constructor.
-  - split; [split; [right; reflexivity | intro k; reflexivity]|].
-    intros _. split; [reflexivity | intro k; reflexivity].
-  - constructor; [|constructor].
-    split; [split; [right; reflexivity | exact I]|].
-    intros _. split; [reflexivity | intro k; reflexivity].
-Qed.
+Proof. exact ex_remote_served_ok. Qed.
 
 Example C03_ex_remote_filter :
   map d_id (find_preds ex_remote [FAnn (b "k") None; FArt (Some (str_eqb (b "sbom")))] 1) = [2] /\
@@ -216,12 +196,7 @@ Example C03_depth_not_exact :
   option_map (map d_id) (find_roots (fuel_for diamond_source 4) diamond_source [] 2%Z (mkDesc 0 [] None))
     = Some [1] /\
   anc_steps diamond_source [] 2 0 3.
-Proof.
-  split; [vm_compute; reflexivity|].
-  apply (pathS _ 1 0 1 3).
-  - apply (pathS _ 0 0 0 1); [constructor | vm_compute; auto].
-  - vm_compute. auto.
-Qed.
+Proof. exact diamond_depth_not_exact. Qed.
 
 Example C03_ex_tagged :
   extended_copy (fun r => if str_eqb r (b "v1") then Some ex_node else None) (fun _ => true) true
